@@ -310,19 +310,53 @@ func ruleHeapNotify(c *Ctx, r *R) {
 		}
 	}
 	okAll := false
-	instrs(nw, func(b *ssa.BasicBlock, i int, in ssa.Instruction) {
-		call, ok := in.(*ssa.Call)
-		if !ok {
-			return
+	deepNew := deepInstrs(nw, 2) // the two loops may be methods of their own (h.heapify(); h.notifyAllIndexes())
+	lenOfInitial := func(chain []*ssa.Call) func(ssa.Value) bool {
+		return func(v ssa.Value) bool {
+			call, ok := resolveVal(v).(*ssa.Call)
+			if !ok {
+				return false
+			}
+			if b, ok := call.Call.Value.(*ssa.Builtin); !ok || b.Name() != "len" {
+				return false
+			}
+			pv := valueProv(call.Call.Args[0], provEnv{chain: chain})
+			return pv.root == initial && len(pv.fields) == 0
 		}
-		if cal := staticCallee(&call.Call); cal != nil && fname(cal) == "notifyIndexChanged" && rangeOver(call.Call.Args[1], initial) {
-			// after every percolateDown: no percolateDown reachable from here
-			later := callsAfter(nw, call, "percolateDown")
-			if len(later) == 0 {
+	}
+	for _, d := range deepNew {
+		call, ok := d.in.(*ssa.Call)
+		if !ok {
+			continue
+		}
+		if cal := staticCallee(&call.Call); cal != nil && fname(cal) == "notifyIndexChanged" && rangeOverP(call.Call.Args[1], lenOfInitial(d.calls)) {
+			// after every percolateDown: no percolateDown (deep) is reachable from this notification's place in New
+			later := false
+			for _, d2 := range deepNew {
+				c2, ok := d2.in.(*ssa.Call)
+				if !ok {
+					continue
+				}
+				if cal2 := staticCallee(&c2.Call); cal2 == nil || fname(cal2) != "percolateDown" {
+					continue
+				}
+				sb, s2 := d.site.Block(), d2.site.Block()
+				if d.site == d2.site {
+					// same frame below New: fall back to the order inside that frame
+					if d.in.Parent() == d2.in.Parent() && ((d.in.Block() == d2.in.Block() && idxIn(d.in) < idxIn(d2.in)) || (d.in.Block() != d2.in.Block() && reaches(d.in.Block(), d2.in.Block()))) {
+						later = true
+					}
+					continue
+				}
+				if (sb == s2 && idxIn(d.site) < idxIn(d2.site)) || (sb != s2 && reaches(sb, s2)) {
+					later = true
+				}
+			}
+			if !later {
 				okAll = true
 			}
 		}
-	})
+	}
 	r.ok(okAll, "heap.New|notifies-every-initial-index", nw.Pos(), "New adopts the caller's slice wholesale: after heapifying it must report the final index of every initial item (a loop over the whole slice), otherwise items that heapify did not move are never reported")
 }
 
@@ -386,18 +420,28 @@ func ruleHeapRestore(c *Ctx, r *R) {
 	nw := c.fn("internal/heap.New")
 	okH := false
 	if nw != nil {
-		instrs(nw, func(b *ssa.BasicBlock, i int, in ssa.Instruction) {
-			call, ok := in.(*ssa.Call)
-			if !ok {
-				return
+		var initial ssa.Value
+		for _, p := range nw.Params {
+			if pname(p) == "initial" {
+				initial = p
 			}
+		}
+		for _, d := range deepInstrs(nw, 2) {
+			call, ok := d.in.(*ssa.Call)
+			if !ok {
+				continue
+			}
+			b := d.in.Block()
 			if cal := staticCallee(&call.Call); cal != nil && fname(cal) == "percolateDown" {
 				if phi, ok := call.Call.Args[1].(*ssa.Phi); ok {
 					start, step := false, false
 					for _, e := range phi.Edges {
-						p := path(e)
-						if strings.Contains(p, "len(initial)/2") && strings.HasSuffix(strings.Trim(p, "()"), "-1") {
-							start = true
+						// len(initial)/2 - 1, with the slice possibly seen as h.a inside a helper method
+						se := symOf(e, provEnv{chain: d.calls})
+						if se.op == "-" && len(se.args) == 2 && se.args[1].isConst(1) && se.args[0].op == "/" && len(se.args[0].args) == 2 && se.args[0].args[1].isConst(2) && se.args[0].args[0].op == "len" {
+							if lf := se.args[0].args[0].args[0]; lf.op == "leaf" && initial != nil && lf.s == "param:"+pname(initial.(*ssa.Parameter)) {
+								start = true
+							}
 						}
 						if sub, ok := e.(*ssa.BinOp); ok && sub.Op == token.SUB && sub.X == ssa.Value(phi) && isConstInt(sub.Y, 1) {
 							step = true
@@ -409,50 +453,44 @@ func ruleHeapRestore(c *Ctx, r *R) {
 							geq = true
 						}
 					}
-					okH = start && step && geq
+					if start && step && geq {
+						okH = true
+					}
 				}
 			}
-		})
+		}
 	}
 	r.ok(okH, "heap.New|heapify", token.NoPos, "New must sift down every internal node, from index len/2-1 down to and including 0")
 }
 
 func ruleHeapDirection(c *Ctx, r *R) {
-	// helper: is call less(h, X, Y) with given paths?
-	isLess := func(v ssa.Value) (string, string, bool) {
-		call, ok := v.(*ssa.Call)
-		if !ok {
-			return "", "", false
-		}
-		cal := staticCallee(&call.Call)
-		if cal == nil || fname(cal) != "less" || len(call.Call.Args) != 3 {
-			return "", "", false
-		}
-		return path(call.Call.Args[1]), path(call.Call.Args[2]), true
-	}
 	up := heapFn(c, "percolateUp")
 	if up != nil {
 		n := 0
-		instrs(up, func(b *ssa.BasicBlock, i int, in ssa.Instruction) {
-			call, ok := in.(*ssa.Call)
+		for _, d := range deepInstrs(up, 2) { // the test-and-swap may be a helper of its own (h.swapIfLess(i, parent(i)))
+			call, ok := d.in.(*ssa.Call)
 			if !ok {
-				return
+				continue
 			}
 			if cal := staticCallee(&call.Call); cal == nil || fname(cal) != "swap" {
-				return
+				continue
 			}
 			n++
-			a1, a2 := path(call.Call.Args[1]), path(call.Call.Args[2])
+			inUp := func(v ssa.Value) string { return path(argOf(v, d.calls)) }
+			a1, a2 := inUp(call.Call.Args[1]), inUp(call.Call.Args[2])
 			good := false
-			for _, g := range guardsOf(b) {
+			for _, g := range guardsOf(d.in.Block()) {
 				if v, val := g.boolVal(); val {
-					if x, y, ok := isLess(v); ok && strings.Contains(y, "parent(") && ((x == a1 && y == a2) || (x == a2 && y == a1)) && !strings.Contains(x, "parent(") {
-						good = true
+					if xv, yv, ok := heapLessIdx(v); ok {
+						x, y := inUp(xv), inUp(yv)
+						if strings.Contains(y, "parent(") && ((x == a1 && y == a2) || (x == a2 && y == a1)) && !strings.Contains(x, "parent(") {
+							good = true
+						}
 					}
 				}
 			}
 			r.ok(good, "heap.Heap.percolateUp|swap-guard#"+itoa(n), call.Pos(), "min-heap: a child moves up only when less(child, parent); the reverse test builds a max-heap")
-		})
+		}
 		// the loop continues with i = p and stops at the root
 		cont := false
 		instrs(up, func(b *ssa.BasicBlock, i int, in ssa.Instruction) {
@@ -471,32 +509,42 @@ func ruleHeapDirection(c *Ctx, r *R) {
 	down := heapFn(c, "percolateDown")
 	if down != nil {
 		n := 0
-		instrs(down, func(b *ssa.BasicBlock, i int, in ssa.Instruction) {
-			call, ok := in.(*ssa.Call)
+		for _, d := range deepInstrs(down, 2) {
+			call, ok := d.in.(*ssa.Call)
 			if !ok {
-				return
+				continue
 			}
 			if cal := staticCallee(&call.Call); cal == nil || fname(cal) != "swap" {
-				return
+				continue
 			}
 			n++
 			a1, a2 := call.Call.Args[1], call.Call.Args[2]
 			good := false
-			for _, g := range guardsOf(b) {
+			for _, g := range guardsOf(d.in.Block()) {
 				if v, val := g.boolVal(); val {
-					if lc, ok := v.(*ssa.Call); ok {
-						if cal := staticCallee(&lc.Call); cal != nil && fname(cal) == "less" {
-							x, y := lc.Call.Args[1], lc.Call.Args[2]
-							// less(child, i): child is the first swap arg, i the loop variable
-							if x == a1 && y == a2 {
-								good = true
-							}
+					if x, y, ok := heapLessIdx(v); ok {
+						// less(child, i): child is the first swap arg, i the loop variable
+						if x == a1 && y == a2 {
+							good = true
 						}
 					}
 				}
 			}
+			// inside a test-and-swap helper the roles are fixed at the call sites: (child, element) in that order
+			if good && len(d.calls) > 0 {
+				site := d.calls[len(d.calls)-1]
+				if len(site.Call.Args) == 3 {
+					ch := path(site.Call.Args[1])
+					if !(strings.Contains(ch, "children(") || strings.Contains(ch, "#0") || strings.Contains(ch, "#1") || strings.HasPrefix(ch, "phi")) {
+						good = false
+					}
+				}
+			}
 			r.ok(good, "heap.Heap.percolateDown|swap-guard#"+itoa(n), call.Pos(), "min-heap: an element moves down only when less(child, element)")
-		})
+		}
+		if n == 0 {
+			r.violated("heap.Heap.percolateDown|swap-guard", down.Pos(), "percolateDown never swaps")
+		}
 		// least = right only under less(right, left): wherever the right child (children()#1) is selected - as an incoming
 		// value of a merge or as a helper's result - that selection sits under less(right, left)
 		okLeast := false
@@ -512,10 +560,8 @@ func ruleHeapDirection(c *Ctx, r *R) {
 			for _, g := range gs {
 				for _, g2 := range expandGuard(g, 0) {
 					if v, val := g2.boolVal(); val {
-						if lc, ok := v.(*ssa.Call); ok {
-							if cal := staticCallee(&lc.Call); cal != nil && fname(cal) == "less" && strings.Contains(path(lc.Call.Args[1]), "#1") && strings.Contains(path(lc.Call.Args[2]), "#0") {
-								return true
-							}
+						if x, y, ok := heapLessIdx(v); ok && strings.Contains(path(x), "#1") && strings.Contains(path(y), "#0") {
+							return true
 						}
 					}
 				}
@@ -977,4 +1023,43 @@ func unparen(s string) string {
 		s = s[1 : len(s)-1]
 	}
 	return s
+}
+
+// heapLessIdx: v is the heap's ordering test on two slots - h.less(x, y), or the index helper inlined as
+// h.lessFn(h.a[x], h.a[y]) - and x, y are the two index values.
+func heapLessIdx(v ssa.Value) (ssa.Value, ssa.Value, bool) {
+	call, ok := v.(*ssa.Call)
+	if !ok {
+		return nil, nil, false
+	}
+	if cal := staticCallee(&call.Call); cal != nil && fname(cal) == "less" && len(call.Call.Args) == 3 {
+		return call.Call.Args[1], call.Call.Args[2], true
+	}
+	if call.Call.IsInvoke() || len(call.Call.Args) != 2 {
+		return nil, nil, false
+	}
+	ld, ok := call.Call.Value.(*ssa.UnOp)
+	if !ok || ld.Op != token.MUL {
+		return nil, nil, false
+	}
+	fa, ok := ld.X.(*ssa.FieldAddr)
+	if !ok || !(isNamedTypeDeep(fa.X.Type(), "internal/heap", "Heap") || isNamedTypeDeep(fa.X.Type(), "container/xheap", "Heap")) {
+		return nil, nil, false
+	}
+	idxOf := func(a ssa.Value) ssa.Value {
+		l2, ok := a.(*ssa.UnOp)
+		if !ok || l2.Op != token.MUL {
+			return nil
+		}
+		ia, ok := l2.X.(*ssa.IndexAddr)
+		if !ok {
+			return nil
+		}
+		return ia.Index
+	}
+	x, y := idxOf(call.Call.Args[0]), idxOf(call.Call.Args[1])
+	if x == nil || y == nil {
+		return nil, nil, false
+	}
+	return x, y, true
 }
